@@ -239,4 +239,21 @@ CHECKS = {
                   R("^TestHookFailures$", 60, 2, 3400, race=True, env={"VERIF_RACE": "1"}, shrinktime="60s")],
         floors={"critical-failure": ("TestHookFailures", 0.3), "simultaneous-failures": ("TestHookFailures", 0.05)},
     ),
+    "C10": dict(
+        pkg="./props/c10", bins=["./cmd/simcore"], level="exploration",
+        rule=("whole core against the simulated world; probe calls at weights -1 and +1 of every moment of START_ACTIVITY, STOP_ACTIVITY, GO_ERROR and of "
+              "the teardown report the run number and the four run timestamps from their variable stack; rapid-generated histories of 2-9 "
+              "operations over one environment: start, stop, START with a failing critical task, START/STOP with a critical hook failing at "
+              "before/leave/enter/after, death of a critical task while running, forced destroy (also while running). Oracle per run: the "
+              "weight -1 hook of before_START_ACTIVITY does not see the number, every hook from weight +1 on until the STOP_ACTIVITY transition "
+              "has finished sees the same number and start time, the number is gone afterwards (hooks and currentRunNumber), each timestamp is "
+              "set at most once and in the order start <= start-completion <= end <= end-completion, the end ones are set in the last snapshot "
+              "however the run ended, nothing of run r is visible in run r+1, start and end records are published. Non-trivial: >=2 runs, a "
+              "run ended by error or teardown, or a failing hook inside a run."),
+        assumptions=["whether run_start_time_ms disappears after the run, and whether the run number disappears after a run ended by error or teardown, is not claimed (not stated)",
+                     "values are compared through equality/ordering only; the wall clock of the core is opaque"],
+        quick=[R("^TestFixed$", 1, 1, 900), R("^TestRuns$", 12, 10, 900, shrinktime="90s")],
+        thorough=[R("^TestFixed$", 1, 1, 900), R("^TestRuns$", 200, 15, 3400, shrinktime="180s")],
+        floors={"run-ended-by-error-or-teardown": ("TestRuns", 0.3)},
+    ),
 }
